@@ -205,8 +205,12 @@ def sig_match(known_sig, sig):
 
 def load_known(pid):
     out = []
-    if os.path.exists(KNOWN):
-        for line in open(KNOWN):
+    files = [KNOWN] if os.path.exists(KNOWN) else []
+    kd = os.path.join(VERIF, "known_findings.d")
+    if os.path.isdir(kd):
+        files += [os.path.join(kd, f) for f in sorted(os.listdir(kd)) if f.endswith(".jsonl")]
+    for fn in files:
+        for line in open(fn):
             line = line.strip()
             if not line or line.startswith("#"):
                 continue
